@@ -239,8 +239,12 @@ def attach_scc_subdiagram(
         else:
             # This node can be marked as expanded, because we know its successors.
             # We just need to add them in the for loop below.
-            if not sd.node_data(main_node_id)["expanded"]:
-                # Data computed while the node had no successors is no longer valid.
+            if (
+                not sd.node_data(main_node_id)["expanded"]
+                or sd.node_data(main_node_id)["skipped"]
+            ):
+                # Data computed while the node had no successors (or only the
+                # successors of a skip node) is no longer valid.
                 sd.node_data(main_node_id)["attractor_seeds"] = None
                 sd.node_data(main_node_id)["attractor_candidates"] = None
                 sd.node_data(main_node_id)["attractor_sets"] = None
@@ -267,8 +271,9 @@ def attach_scc_subdiagram(
             sd._ensure_edge(main_node_id, main_succ_id, inner_stable_motif)  # type: ignore
 
     # This makes the `attach_at` node expanded. We will not be adding new nodes to it later.
-    if not sd.node_data(attach_at)["expanded"]:
-        # Data computed while the node had no successors is no longer valid.
+    if not sd.node_data(attach_at)["expanded"] or sd.node_data(attach_at)["skipped"]:
+        # Data computed while the node had no successors (or only the
+        # successors of a skip node) is no longer valid.
         sd.node_data(attach_at)["attractor_seeds"] = None
         sd.node_data(attach_at)["attractor_candidates"] = None
         sd.node_data(attach_at)["attractor_sets"] = None
